@@ -6,7 +6,7 @@ A ModelRun names a module, a configuration file and what is expected:
                     i.e. the interesting situation is reachable within the constants (guards against
                     vacuous models)
 The result (distinct states, generated states = transitions examined) goes into the evidence."""
-import os, json, hashlib
+import os, json, hashlib, re
 from concurrent.futures import ThreadPoolExecutor
 from .common import *
 from . import tlc
@@ -53,5 +53,103 @@ def write_model_replay(prop, m):
     return path
 
 
-# property -> design model runs (filled below as models are written)
-MODELS = {}
+_BEH = re.compile(r'<<"BEHAVIOUR", "(.*)">>\s*$')
+
+
+def behaviours(module, cfg, limit=None, seed=1, subdir=None):
+    """Runs the Gen configuration of a design model (ACTION_CONSTRAINT Emit prints the command
+    history of every generated transition) and returns the behaviours as lists of dicts.  With a
+    limit, the longest behaviours that are not a prefix of another one are preferred and the rest
+    is sampled with `seed`."""
+    import random
+    d = os.path.join(SPEC, subdir) if subdir else DESIGN_DIR
+    r = tlc.check_model(d, module, cfg, workers=1, timeout=900, heap="4g")
+    if r["rc"] != 0:
+        raise InfraError("behaviour emission failed for %s/%s:\n%s" % (module, cfg, r["out"][-2000:]))
+    seen, out = set(), []
+    for line in r["out"].splitlines():
+        m = _BEH.search(line)
+        if m:
+            js = json.loads('"' + m.group(1) + '"')
+            if js not in seen:
+                seen.add(js)
+                out.append(json.loads(js))
+    if limit and len(out) > limit:
+        keys = {json.dumps(b) for b in out}
+        prefixes = {json.dumps(b[:-1]) for b in out}
+        leaves = [b for b in out if json.dumps(b) not in prefixes]
+        rng = random.Random(seed)
+        rng.shuffle(leaves)
+        pick = leaves[:limit]
+        if len(pick) < limit:
+            rest = [b for b in out if json.dumps(b) in prefixes]
+            rng.shuffle(rest)
+            pick += rest[:limit - len(pick)]
+        out = pick
+    return out, {"module": module, "cfg": cfg, "emitted": len(seen), "distinct": r["distinct"], "generated": r["generated"]}
+
+
+def M(module, cfg, expect="ok", tier="quick", **kw):
+    return ModelRun(module, cfg, expect, tier, **kw)
+
+
+FREELIST = [M("FreeListOrdered", "MCOrd_above.cfg"), M("FreeListOrdered", "MCOrd_below.cfg"),
+            M("FreeListOrdered", "MCOrd_two_below.cfg", tier="thorough"), M("FreeListOrdered", "MCOrd_two_above.cfg", tier="thorough"),
+            M("FreeListOrdered", "MCOrd_regress_proxy.cfg", "witness"), M("FreeListOrdered", "MCOrd_regress_ceil.cfg", "witness"),
+            M("FreeListOrdered", "MCOrd_wit_cache_end.cfg", "witness"), M("FreeListOrdered", "MCOrd_wit_array_mid.cfg", "witness"),
+            M("FreeListLIFO", "MCLifo.cfg"), M("FreeListLIFO", "MCLifo_two.cfg", tier="thorough"),
+            M("FreeListLIFO", "MCLifo_regress_ceil.cfg", "witness"), M("FreeListLIFO", "MCLifo_wit.cfg", "witness"),
+            M("FreeListSmall", "MCSmall_2x3.cfg"), M("FreeListSmall", "MCSmall_3x2.cfg", tier="thorough"),
+            M("FreeListSmall", "MCSmall_wit_all.cfg", "witness")]
+COLL = [M("MCPoolCollection", "MCPC_fixed.cfg"), M("MCPoolCollection", "MCPC_grow.cfg"),
+        M("MCPoolCollection", "MCPC_three.cfg", tier="thorough", workers=8, heap="12g"),
+        M("MCPoolCollection", "MCPC_regress_dup.cfg", "witness"), M("MCPoolCollection", "MCPC_regress_crash.cfg", "witness"),
+        M("MCPoolCollection", "MCPC_wit_rest.cfg", "witness"), M("MCPoolCollection", "MCPC_wit_null.cfg", "witness")]
+ARENA = [M("Arena", "MCArena_cached.cfg"), M("Arena", "MCArena_uncached.cfg"), M("Arena", "MCArena_regress_order.cfg", "witness"),
+         M("Arena", "MCArena_wit_shrink.cfg", "witness"), M("Arena", "MCArena_wit_fail.cfg", "witness")]
+STACK = [M("MCStack", "MCStack_f0.cfg"), M("MCStack", "MCStack_f1.cfg"), M("MCStack", "MCStack_regress_drop.cfg", "witness"),
+         M("MCStack", "MCStack_wit_two.cfg", "witness"), M("MCStack", "MCStack_wit_end.cfg", "witness"),
+         M("MCStack", "MCStack_wit_throw.cfg", "witness")]
+ITER = [M("Iteration", "MCIter_%s.cfg" % k) for k in ("1_7", "2_9", "3_10", "3_11", "4_10")] + \
+       [M("Iteration", "MCIter_5_13.cfg", tier="thorough"), M("Iteration", "MCIter_regress_ctor.cfg", "witness"),
+        M("Iteration", "MCIter_wit_cycle.cfg", "witness"), M("Iteration", "MCIter_wit_full.cfg", "witness")]
+MOVE = [M("FreeListSmall", "MCSmall_regress_move.cfg", "witness"), M("FreeListSmall", "MCSmall_2x3.cfg"), M("Arena", "MCArena_cached.cfg"),
+        M("Arena", "MCArena_uncached.cfg")]
+
+# property -> design model runs
+MODELS = {
+    "C01": FREELIST + COLL + STACK[:2] + ITER[:4],
+    "C02": STACK[:2] + [STACK[4]],
+    "C03": COLL + [STACK[0], STACK[5]] + [ARENA[0], ARENA[4]],
+    "C04": FREELIST + COLL[:2],
+    "C05": ARENA,
+    "C06": STACK,
+    "C07": ITER,
+    "C12": MOVE,
+    "C15": [],
+    "C18": [STACK[0], ITER[2]],
+}
+
+# C19 / table part of C18 (plans_tables.py): arithmetic definitions vs. bit tricks, min_block_size layout
+MODELS.setdefault("C19", []).extend([
+    ModelRun("Arith", "MCArith.cfg"), ModelRun("Arith", "MCArith_loop16.cfg"),
+    ModelRun("Arith", "MCArith_wit_wrap.cfg", "witness"), ModelRun("Arith", "MCArith_wit_cap.cfg", "witness"),
+    ModelRun("Arith", "MCArith_regress_noclamp.cfg", "witness")])
+MODELS.setdefault("C18T", []).extend([
+    ModelRun("SmallLayout", "MCSmallLayout.cfg"), ModelRun("SmallLayout", "MCSmallLayout_full.cfg", tier="thorough"),
+    ModelRun("SmallLayout", "MCSmallLayout_regress_F16.cfg", "witness"),
+    ModelRun("SmallLayout", "MCSmallLayout_wit_buffer.cfg", "witness")])
+
+# C17 (plans_lowlevel.py): fence check on release as debug_fill_free / debug_is_filled do it
+MODELS.setdefault("C17", []).extend([
+    ModelRun("Fence", "MCFence.cfg"),
+    ModelRun("Fence", "MCFence_less.cfg", "witness"), ModelRun("Fence", "MCFence_backonly.cfg", "witness"),
+    ModelRun("Fence", "MCFence_W1.cfg", "witness"), ModelRun("Fence", "MCFence_W2.cfg", "witness")])
+# C16 (plans_lowlevel.py): two-ended chunk search of small_free_memory_list::deallocate; the F18
+# configuration is the transcription of the loop before the repair and must be found non-terminating
+MODELS.setdefault("C16", []).extend([
+    ModelRun("SmallChunkSearch", "MCSmallChunkSearch.cfg"),
+    ModelRun("SmallChunkSearch", "MCSmallChunkSearch_F18.cfg", "witness"),
+    ModelRun("SmallChunkSearch", "MCSmallChunkSearch_W1.cfg", "witness"),
+    ModelRun("SmallChunkSearch", "MCSmallChunkSearch_W2.cfg", "witness"),
+    ModelRun("SmallChunkSearch", "MCSmallChunkSearch_W3.cfg", "witness")])
